@@ -444,4 +444,189 @@ theorem exTree_accepted : LevelLoop.exTree.validate = .ok () ∧ LevelLoop.exTre
     DictOK LevelLoop.exTree ∧ HasNode LevelLoop.exTree :=
   ⟨by rfl, by decide, dictOK_of_b (by decide), hasNode_of_wfb LevelLoop.exTree_wf⟩
 
+/-! ### trees equal up to the order of dict keys / child lists give the same mapping
+
+C10's `drop_commutes_build` relates the dropped tree and the tree built without
+the column by `TreeEquiv` (same hierarchy, same nodes, same entries UP TO
+ORDER).  The level loop hands the oracle the children in stored order, each
+with its leaf list in `as_leaves` order; so the two mappings agree for oracles
+that do not look at these orders (`OrderBlind`). -/
+
+/-- two `kids` arguments of the oracle that differ only in the order of the
+children and of each child's leaf list -/
+def KidsEquiv (a b : List (Node × List Node)) : Prop :=
+  (a.map (·.1)).Perm (b.map (·.1)) ∧ ∀ k la lb, (k, la) ∈ a → (k, lb) ∈ b → la.Perm lb
+
+/-- the oracle reads the children of the parent and their leaves as SETS (on
+arguments whose children are distinct, as they are on a validated tree) -/
+def OrderBlind {κ} (vote : LevelLoop.Oracle κ) : Prop :=
+  ∀ p a b c, (a.map (·.1)).Nodup → KidsEquiv a b → vote p a c = vote p b c
+
+/-- tree-independent form of `VoteOK`: the oracle returns one of the children it
+was given -/
+def VoteChild {κ} (vote : LevelLoop.Oracle κ) : Prop :=
+  ∀ p kl c, 2 ≤ kl.length → (vote p kl c).assignment ∈ kl.map (·.1)
+
+theorem voteOK_of_voteChild {κ} {vote : LevelLoop.Oracle κ} (h : VoteChild vote) (t : RawTree) :
+    LevelLoop.VoteOK t vote := by
+  intro p cl kids c hk
+  have := h p (LevelLoop.kidsOf t cl kids) c (by simpa [LevelLoop.kidsOf] using hk)
+  simpa [LevelLoop.kidsOf, List.map_map, Function.comp_def] using this
+
+theorem leavesSpec_equiv {t₁ t₂ : RawTree} (e : TreeEquiv t₁ t₂) (s₁ : Strict t₁) :
+    ∀ (below : List Level) (i : Nat) (hi : i < t₁.hierarchy.length),
+      below = t₁.hierarchy.drop (i+1) → ∀ n, n ∈ t₁.nodesAt t₁.hierarchy[i] →
+        (leavesSpec t₁ below t₁.hierarchy[i] n).Perm (leavesSpec t₂ below t₁.hierarchy[i] n)
+  | [], _, _, _, _, _ => List.Perm.refl _
+  | cl :: rest, i, hi, hb, n, hn => by
+    have hi1 : i + 1 < t₁.hierarchy.length := by
+      rcases Nat.lt_or_ge (i+1) t₁.hierarchy.length with h | h
+      · exact h
+      · rw [List.drop_eq_nil_of_le h] at hb; cases hb
+    rw [List.drop_eq_getElem_cons hi1] at hb
+    obtain ⟨rfl, rfl⟩ := List.cons.inj hb
+    simp only [leavesSpec]
+    have hl : t₁.hierarchy[i] ∈ t₁.hierarchy := List.getElem_mem hi
+    refine (perm_flatMap_congr (fun c hc => ?_)).trans ((e.entries _ hl n hn).flatMap_right _)
+    exact leavesSpec_equiv e s₁ _ (i+1) hi1 rfl c (s₁.entry_sub hi1 hn hc)
+
+/-- `as_leaves` of equivalent trees agree up to order -/
+theorem asLeaves_equiv {t₁ t₂ : RawTree} (e : TreeEquiv t₁ t₂) (s₁ : Strict t₁)
+    (hN : t₁.hierarchy.Nodup) {l : Level} (hl : l ∈ t₁.hierarchy) {n : Node}
+    (hn : n ∈ t₁.nodesAt l) : (t₁.asLeaves l n).Perm (t₂.asLeaves l n) := by
+  obtain ⟨i, hi, rfl⟩ := List.getElem_of_mem hl
+  have hb₂ : t₂.levelsBelow t₁.hierarchy[i] = t₁.hierarchy.drop (i+1) := by
+    have h2 : i < t₂.hierarchy.length := by rw [← e.hier]; exact hi
+    have : t₁.hierarchy[i] = t₂.hierarchy[i] := by simp only [e.hier]
+    rw [this, levelsBelow_getElem (e.hier ▸ hN) h2, e.hier]
+  refine (asLeaves_perm_spec t₁ _ n).trans (List.Perm.trans ?_ (asLeaves_perm_spec t₂ _ n).symm)
+  rw [hb₂, levelsBelow_getElem hN hi]
+  exact leavesSpec_equiv e s₁ _ i hi rfl n hn
+
+/-- children of a legitimate parent: present in both trees, equal up to order -/
+theorem children_equiv {t₁ t₂ : RawTree} (e : TreeEquiv t₁ t₂) (w₁ : WF t₁) (w₂ : WF t₂)
+    {p : LevelLoop.Parent} {k₁ : List Node} (h₁ : t₁.children p = .ok k₁) :
+    ∃ k₂, t₂.children p = .ok k₂ ∧ k₁.Perm k₂ ∧ k₁.Nodup := by
+  have s₁ := strict_of_validate w₁.valid
+  cases p with
+  | none =>
+    obtain ⟨l0, h0, rfl⟩ := children_none_ok_iff.1 h₁
+    have hl0 : l0 ∈ t₁.hierarchy := List.mem_of_mem_head? h0
+    refine ⟨t₂.nodesAt l0, children_root (e.hier ▸ h0), ?_, w₁.dict.nodesAt_nodup l0⟩
+    exact perm_of_nodup_of_mem_iff (w₁.dict.nodesAt_nodup l0) (w₂.dict.nodesAt_nodup l0)
+      (e.nodes l0 hl0)
+  | some ln =>
+    obtain ⟨l, n⟩ := ln
+    obtain ⟨hlk, hn, rfl⟩ := children_some_ok_iff.1 h₁
+    have hl : l ∈ t₁.hierarchy := s₁.keysSub l hlk
+    have hn₂ : n ∈ t₂.nodesAt l := (e.nodes l hl n).1 hn
+    exact ⟨_, children_eq_entry w₂.dict hn₂, e.entries l hl n hn,
+      s₁.entry_nodup_of_mem hl hn⟩
+
+theorem voteFn_equiv {κ} {t₁ t₂ : RawTree} {vote : LevelLoop.Oracle κ} (hob : OrderBlind vote)
+    (p : LevelLoop.Parent) (cl : Level) {k₁ k₂ : List Node} (hperm : k₁.Perm k₂) (hnd : k₁.Nodup)
+    (hleaves : ∀ k ∈ k₁, (t₁.asLeaves cl k).Perm (t₂.asLeaves cl k)) (c : κ) :
+    LevelLoop.voteFn t₁ vote p cl k₁ c = LevelLoop.voteFn t₂ vote p cl k₂ c := by
+  have hke : KidsEquiv (LevelLoop.kidsOf t₁ cl k₁) (LevelLoop.kidsOf t₂ cl k₂) := by
+    refine ⟨by simpa [LevelLoop.kidsOf, List.map_map, Function.comp_def] using hperm, ?_⟩
+    intro k la lb ha hb
+    simp only [LevelLoop.kidsOf, List.mem_map, Prod.mk.injEq] at ha hb
+    obtain ⟨k', hk', rfl, rfl⟩ := ha
+    obtain ⟨k'', _, rfl, rfl⟩ := hb
+    exact hleaves _ hk'
+  have hvote := hob p _ _ c (by simpa [LevelLoop.kidsOf, List.map_map, Function.comp_def] using hnd) hke
+  match k₁, k₂, hperm with
+  | [], k₂, hp =>
+    have : k₂ = [] := List.nil_perm.mp hp
+    subst this
+    simpa [LevelLoop.voteFn] using hvote
+  | [a], k₂, hp =>
+    have : k₂ = [a] := List.perm_singleton.mp hp.symm
+    subst this
+    simp [LevelLoop.voteFn]
+  | a :: b :: r, k₂, hp =>
+    have hlen : k₂.length = r.length + 2 := by simpa using hp.length_eq.symm
+    match k₂, hlen with
+    | a' :: b' :: r', _ => simpa [LevelLoop.voteFn] using hvote
+
+/-- the one-cell walk is the same on equivalent trees, for an order-blind oracle -/
+theorem walkFrom_equiv {κ} {t₁ t₂ : RawTree} {vote : LevelLoop.Oracle κ} (e : TreeEquiv t₁ t₂)
+    (w₁ : WF t₁) (w₂ : WF t₂) (hob : OrderBlind vote) (hv : LevelLoop.VoteOK t₁ vote) (c : κ) :
+    ∀ (ls pre : List Level) (p : LevelLoop.Parent), t₁.hierarchy = pre ++ ls →
+      LevelLoop.At t₁ pre p →
+      LevelLoop.walkFrom t₁ vote c ls p = LevelLoop.walkFrom t₂ vote c ls p
+  | [], _, _, _, _ => rfl
+  | cl :: rest, pre, p, hs, hat => by
+    have s₁ := strict_of_validate w₁.valid
+    have hkids : ∃ k₁, t₁.children p = .ok k₁ ∧ ∀ k ∈ k₁, k ∈ t₁.nodesAt cl := by
+      rcases hat with ⟨rfl, rfl⟩ | ⟨pre', pl, n, rfl, rfl, hn⟩
+      · have h0 : t₁.hierarchy.head? = some cl := by rw [hs]; rfl
+        exact ⟨_, children_root h0, fun k hk => hk⟩
+      · have hpc : (pl, cl) ∈ RawTree.levelPairs t₁.hierarchy := by
+          rw [hs, List.append_assoc]; exact mem_levelPairs_of_split _ _ _ _
+        exact ⟨_, children_eq_entry w₁.dict hn,
+          fun k hk => s₁.childExists pl cl hpc n _ (mem_level_entry hn) k hk⟩
+    obtain ⟨k₁, h₁, hsub⟩ := hkids
+    obtain ⟨k₂, h₂, hperm, hnd⟩ := children_equiv e w₁ w₂ h₁
+    have hcl : cl ∈ t₁.hierarchy := by rw [hs]; simp
+    have hvf := voteFn_equiv (t₁ := t₁) (t₂ := t₂) hob p cl hperm hnd
+      (fun k hk => asLeaves_equiv e s₁ w₁.hNodup hcl (hsub k hk)) c
+    by_cases hne : k₁ = []
+    · subst hne
+      have : k₂ = [] := List.nil_perm.mp hperm
+      subst this
+      simp [LevelLoop.walkFrom, h₁, h₂]
+    · have hne₂ : k₂ ≠ [] := fun h => hne (List.perm_nil.mp (h ▸ hperm))
+      have hmem := LevelLoop.voteFn_mem hv p cl k₁ c hne
+      have hat' : LevelLoop.At t₁ (pre ++ [cl])
+          (some (cl, (LevelLoop.voteFn t₁ vote p cl k₁ c).assignment)) :=
+        Or.inr ⟨pre, cl, _, rfl, rfl, hsub _ hmem⟩
+      have ih := walkFrom_equiv e w₁ w₂ hob hv c rest (pre ++ [cl]) _
+        (by rw [hs]; simp) hat'
+      have e₁ : k₁.isEmpty = false := by cases k₁ <;> simp_all
+      have e₂ : k₂.isEmpty = false := by cases k₂ <;> simp_all
+      rw [hvf] at ih
+      simp only [LevelLoop.walkFrom, h₁, h₂, e₁, e₂, Bool.false_eq_true, if_false, hvf, ih]
+
+theorem walk_equiv {κ} {t₁ t₂ : RawTree} {vote : LevelLoop.Oracle κ} (e : TreeEquiv t₁ t₂)
+    (w₁ : WF t₁) (w₂ : WF t₂) (hob : OrderBlind vote) (hv : LevelLoop.VoteOK t₁ vote) (c : κ) :
+    LevelLoop.walk t₁ vote c = LevelLoop.walk t₂ vote c := by
+  unfold LevelLoop.walk
+  rw [← e.hier, walkFrom_equiv e w₁ w₂ hob hv c t₁.hierarchy [] none rfl (Or.inl ⟨rfl, rfl⟩)]
+
+theorem mkRecord_equiv {κ} {t₁ t₂ : RawTree} {vote : LevelLoop.Oracle κ} (e : TreeEquiv t₁ t₂)
+    (w₁ : WF t₁) (w₂ : WF t₂) (hob : OrderBlind vote) (hv : LevelLoop.VoteOK t₁ vote) :
+    LevelLoop.mkRecord t₁ vote = LevelLoop.mkRecord t₂ vote := by
+  funext id c
+  simp only [LevelLoop.mkRecord, LevelLoop.walkD, walk_equiv e w₁ w₂ hob hv c]
+
+/-- **mapping on equivalent taxonomies**: two stored taxonomies that differ only
+in the order of dict keys and of child / row lists give, for an order-blind
+oracle, the same mapping output (run without `drop_level` / `flatten`) -/
+theorem mapPipeline_equiv {κ} {t₁ t₂ : RawTree} {vote : LevelLoop.Oracle κ} (e : TreeEquiv t₁ t₂)
+    (w₁ : WF t₁) (w₂ : WF t₂) (hnode : HasNode t₁) (hob : OrderBlind vote)
+    (hv₁ : LevelLoop.VoteOK t₁ vote) (hv₂ : LevelLoop.VoteOK t₂ vote)
+    (cfg : LevelLoop.Config) (hdrop : cfg.dropLevel = none) (hflat : cfg.flatten = false)
+    (ids : List LevelLoop.CellId) (cells : List κ) (order : List Nat)
+    (hlen : ids.length = cells.length) (hnd : ids.Nodup)
+    (hproc : 1 ≤ cfg.nProc) (hcs : 1 ≤ cfg.chunkSize)
+    (horder : order.Perm (List.range (LevelLoop.chunks cells.length
+      (LevelLoop.effChunk cells.length cfg.nProc cfg.chunkSize)).length)) :
+    LevelLoop.mapPipeline t₁ cfg vote ids cells order =
+      LevelLoop.mapPipeline t₂ cfg vote ids cells order := by
+  have hnode₂ : HasNode t₂ := by
+    intro l0 h0 he
+    have h0' : t₁.hierarchy.head? = some l0 := by rw [e.hier]; exact h0
+    have hl0 : l0 ∈ t₁.hierarchy := List.mem_of_mem_head? h0'
+    cases hn : t₁.nodesAt l0 with
+    | nil => exact hnode l0 h0' hn
+    | cons a as =>
+      have : a ∈ t₂.nodesAt l0 := (e.nodes l0 hl0 a).1 (by rw [hn]; simp)
+      rw [he] at this; cases this
+  rw [LevelLoop.mapPipeline_plain_ok t₁ cfg vote ids cells order hdrop hflat (wfb_of_WF w₁ hnode)
+      hv₁ hlen hnd hproc hcs horder,
+    LevelLoop.mapPipeline_plain_ok t₂ cfg vote ids cells order hdrop hflat (wfb_of_WF w₂ hnode₂)
+      hv₂ hlen hnd hproc hcs horder,
+    mkRecord_equiv e w₁ w₂ hob hv₁, e.hier]
+
 end CTM.Bridge
